@@ -10,7 +10,8 @@ def run(cmd, cwd=None, timeout=600):
 NEEDS = json.load(open("/verif/tools/seeded_needs.json")) if os.path.exists("/verif/tools/seeded_needs.json") else {}
 SRC = os.environ.get("SEED_SRC", "/tmp/wt")
 RACE = "-race" if os.environ.get("SEED_RACE") else ""  # demos that need the race detector (C19)
-IDMAP = dict(zip("ab", os.environ.get("SEED_LETTERS", "ab")))
+_L = os.environ.get("SEED_LETTERS", "ab")
+IDMAP = dict(zip("ab", _L.split(",") if "," in _L else _L))  # "yz" or "aa,ab"
 def main():
     dirs = sys.argv[1:] or ["c%02d" % i for i in range(1, 20)]
     run("git -C /repo worktree remove --force %s" % WT)
